@@ -98,6 +98,7 @@ type exec struct {
 	imgSeq     int
 	logical    map[string]int64
 	ulidCtr    uint64
+	crashArm   int    // >0: arm crashAt for the next mutating op
 	crashAt    int    // >0: switch to the image of this hit after the current op
 	crashImg   *image // image selected for a dirty restart
 
@@ -1030,7 +1031,7 @@ func (e *exec) doAdd(o Op) {
 			return
 		}
 	}
-	if e.cfg.KF != tsdbmodel.TagOOODupRef && ms.MultiRef && e.curOOO > 0 {
+	if e.cfg.KF != tsdbmodel.TagOOODupRef && (ms.MultiRef || ms.GCd) && e.curOOO > 0 {
 		// Known finding: out-of-order chunks of a series with a duplicate series record are dropped at replay.
 		if l := ms.Last; l == nil || t <= l.T || s.m.W.Init && t < s.m.W.MinValid {
 			e.res.Count("skipped:"+tsdbmodel.TagOOODupRef, 1)
@@ -1278,7 +1279,7 @@ func (e *exec) syncPresence() {
 
 func (e *exec) isMutating(k string) bool {
 	switch k {
-	case "app", "add", "rollback", "tick":
+	case "app", "add", "rollback", "tick", "crashnext":
 		return false
 	}
 	return true
@@ -1327,6 +1328,10 @@ func (e *exec) step(o Op) {
 		pre = e.m.Clone()
 		e.mu.Lock()
 		e.collecting, e.hits, e.images = true, 0, nil
+		e.crashAt, e.crashImg = 0, nil
+		if e.crashArm > 0 && o.K != "crashnext" {
+			e.crashAt, e.crashArm = e.crashArm, 0
+		}
 		e.mu.Unlock()
 	}
 	ctx := context.Background()
@@ -1335,6 +1340,11 @@ func (e *exec) step(o Op) {
 		e.openSlot(o.Slot % 3)
 	case "add":
 		e.doAdd(o)
+		for i := 1; i < o.Rep && !e.failed; i++ {
+			r := o
+			r.TB, r.TO, r.TF, r.VK, r.VM = "now", 0, 1, 0, 0
+			e.doAdd(r)
+		}
 	case "commit":
 		e.doCommit(o.Slot % 3)
 	case "rollback":
@@ -1467,6 +1477,11 @@ func (e *exec) step(o Op) {
 	case "tick":
 		time.Sleep(time.Duration(o.N)*time.Second + 7*time.Millisecond)
 		synctest.Wait()
+	case "crashnext":
+		// the next mutating op is "killed" at its N-th IO boundary: the run continues on that crash image
+		if e.cfg.Crash {
+			e.crashArm = int(o.N%40) + 1
+		}
 	case "snapshot":
 		// reserved
 	}
@@ -1479,8 +1494,16 @@ func (e *exec) step(o Op) {
 		if !e.failed {
 			e.judgeImages(o, imgs, pre, e.m)
 		}
+		ci := e.crashImg
 		for _, im := range imgs {
-			os.RemoveAll(im.dir)
+			if im != ci {
+				os.RemoveAll(im.dir)
+			}
+		}
+		if ci != nil && !e.failed {
+			lower, upper := bounds(o, pre, e.m)
+			e.adoptCrash(ci, lower, upper)
+			return
 		}
 	}
 	if e.failed {
@@ -1620,6 +1643,70 @@ func (e *exec) restart() {
 	e.verify(e.db, e.m, e.m, "query-vs-model-after-restart", fmt.Sprintf("after restart at op %d", e.opIdx), math.MinInt64)
 	if len(e.res.Violations) > 0 {
 		e.failed = true
+	}
+}
+
+// adoptCrash continues the run on a crash image (dirty restart): the process is considered killed at that IO
+// boundary, everything in memory is gone, and the model keeps of the in-flight operation exactly what was recovered.
+func (e *exec) adoptCrash(ci *image, lower, upper *tsdbmodel.Model) {
+	for _, s := range e.apps {
+		s.open, s.v1, s.v2, s.m = false, nil, nil, nil
+	}
+	for i := range e.pendingCreator {
+		e.pendingCreator[i] = 0
+	}
+	_ = e.db.Close() // the abandoned process; its directory is dropped
+	old := e.dir
+	e.dir = ci.dir
+	e.mu.Lock()
+	e.logical = map[string]int64{}
+	e.mu.Unlock()
+	os.RemoveAll(old)
+	e.crashImg = nil
+	var err error
+	e.db, e.reg, err = e.open(e.dir)
+	if err != nil {
+		e.fail("crash-reopen", "reopen-failed:"+siteClass(ci.site), "dirty restart at op %d on image of %s: reopen failed: %v", e.opIdx, ci.site, err)
+		return
+	}
+	res, err := querySamples(e.db, math.MinInt64, math.MaxInt64, allMatcher)
+	if err != nil {
+		e.fail("crash-recovery-query-error", "query-error", "dirty restart at op %d: query failed: %v", e.opIdx, err)
+		return
+	}
+	nm := upper.Clone()
+	for i, us := range nm.Series {
+		got := map[int64]bool{}
+		for _, smp := range res[us.Labels.String()] {
+			got[smp.T] = true
+		}
+		ls := lower.Series[i]
+		for t, c := range us.Cells {
+			lc := ls.Cells[t]
+			if lc != nil && !lc.Deleted {
+				continue // acknowledged before the crash
+			}
+			if got[t] != !c.Deleted {
+				// in-flight: keep what recovery shows
+				if got[t] {
+					c.Deleted, c.KF = false, ""
+				} else {
+					delete(us.Cells, t)
+				}
+			}
+		}
+	}
+	e.m = nm
+	e.restarts++
+	e.res.Count("fault:dirty-restart", 1)
+	for i := range e.refs {
+		e.refs[i] = 0
+	}
+	e.syncPresence()
+	e.m.Restarted()
+	e.oooCompactedThisEpoch = false
+	if e.headInit() && e.db.Head().MaxTime() > e.now {
+		e.now = e.db.Head().MaxTime()
 	}
 }
 
